@@ -4,7 +4,7 @@
   `create_feature_from_location` and the search of `get_trimmed_orf`.
   One Lean function per Python function / loop, same branch order, same `<` vs `<=`.
 
-  The model is of the tree *with* fixes/D13, D28, D29, D56 applied (reverse-strand wrapped parts in
+  The model is of the tree *with* fixes/D13, D28, D29, D57 applied (reverse-strand wrapped parts in
   transcription order; `loc_start >= loc_end` wraps; `last` never moves backwards) and
   *without* a repair of D23 (the `end - start < minimum_length` cull, pinned by the repo's own
   `test_no_hits`): the cull is transcribed as it is.
@@ -222,7 +222,7 @@ def orfLabel (recLen : Nat) (l : Loc) : String :=
 
 /-! ### `get_trimmed_orf` (search for the latest admissible start codon)
 
-  Models the tree with fixes/D56 applied: the new location is
+  Models the tree with fixes/D57 applied: the new location is
   `get_sub_location_from_offsets(orf.location, starts[-1], len(seq))` (C09's exon walk), so the
   trimming follows the parts in transcription order for multi-part / origin-crossing ORFs. -/
 
